@@ -53,7 +53,11 @@ def run_one(spec, repo, analyse_findings, known_keys):
     try:
         dst = os.path.join(work, "repo")
         copy_tree(repo, dst)
-        why = apply_spec(dst, spec)
+        if spec["kind"] == "seeded":
+            r = subprocess.run(["patch", "-p1", "-s", "-i", spec["patch"]], cwd=dst, capture_output=True, text=True)
+            why = None if r.returncode == 0 else "patch does not apply: " + (r.stdout + r.stderr)[:200]
+        else:
+            why = apply_spec(dst, spec)
         if why is not None:
             return {"name": spec["name"], "kind": spec["kind"], "status": "skipped", "why": why}
         try:
@@ -61,6 +65,10 @@ def run_one(spec, repo, analyse_findings, known_keys):
         except Exception as e:  # does not compile (any more): not a usable spec
             return {"name": spec["name"], "kind": spec["kind"], "status": "skipped", "why": "analysis failed: %s" % str(e)[:300]}
         new = [f for f in findings if f.key() not in known_keys]
+        if spec["kind"] == "seeded":
+            if new:
+                return {"name": spec["name"], "kind": "seeded", "status": "fired", "finding": new[0].key(), "message": new[0].msg[:200]}
+            return {"name": spec["name"], "kind": "seeded", "status": "MISSED", "got": []}
         if spec["kind"] == "mutant":
             hit = [f for f in new if f.rule == spec["rule"] and spec.get("construct", "") in f.construct]
             if hit:
@@ -73,8 +81,26 @@ def run_one(spec, repo, analyse_findings, known_keys):
         shutil.rmtree(work, ignore_errors=True)
 
 
+def seeded_specs(prop):
+    """independent seeded changes filed under seeded/<id>/ that the rules of `prop` are on record as catching"""
+    out = []
+    root = os.path.join(VERIF, "seeded")
+    if not os.path.isdir(root):
+        return out
+    for sid in sorted(os.listdir(root)):
+        mp = os.path.join(root, sid, "meta.json")
+        if not os.path.exists(mp):
+            continue
+        with open(mp) as f:
+            m = json.load(f)
+        fired = m.get("checks_on_repo_plus_patch_now") or {}
+        if prop in fired or m.get("breaks_property") == prop:
+            out.append({"property": prop, "kind": "seeded", "name": sid, "patch": os.path.join(root, sid, "patch.diff")})
+    return out
+
+
 def run(prop, repo, analyse_findings, known_keys=(), jobs=None):
-    specs = load_corpus(prop)
+    specs = load_corpus(prop) + seeded_specs(prop)
     jobs = jobs or min(12, max(1, (os.cpu_count() or 4) - 2))
     results = []
     with concurrent.futures.ThreadPoolExecutor(max_workers=jobs) as ex:
@@ -84,13 +110,15 @@ def run(prop, repo, analyse_findings, known_keys=(), jobs=None):
     problems = []
     for r in results:
         if r["status"] == "MISSED":
-            problems.append("mutant `%s` was not reported (got %s)" % (r["name"], r.get("got")))
+            problems.append("%s `%s` was not reported (got %s)" % (r["kind"], r["name"], r.get("got")))
         if r["status"] == "FALSE-ALARM":
             problems.append("benign edit `%s` raised %s" % (r["name"], r.get("got")))
     return {
         "ok": not problems,
         "mutants": sum(1 for r in results if r["kind"] == "mutant"),
-        "mutants_fired": sum(1 for r in results if r["status"] == "fired"),
+        "mutants_fired": sum(1 for r in results if r["status"] == "fired" and r["kind"] == "mutant"),
+        "seeded": sum(1 for r in results if r["kind"] == "seeded"),
+        "seeded_fired": sum(1 for r in results if r["status"] == "fired" and r["kind"] == "seeded"),
         "benign": sum(1 for r in results if r["kind"] == "benign"),
         "benign_silent": sum(1 for r in results if r["status"] == "silent"),
         "skipped": sum(1 for r in results if r["status"] == "skipped"),
